@@ -106,6 +106,7 @@ pub fn run(c: &mut Ctx, prop: &str, b: &Budget) {
                             let act_s = if act == "encrypt" { format!("encrypt:{}", KEY1) } else { act.to_string() };
                             let r = c.assign(&format!("elide_set {} {} {} {}", e, mode, act_s, ts));
                             c.count("enum:elisions");
+                            c.no_panic(&r, "obscuring");
                             if let Some(res) = c.env(&r) {
                                 c.obs(&format!("shape {}", r));
                                 if prop == "C02" {
